@@ -50,6 +50,10 @@ CHECKS['C04'] = dict(tech='Hypothesis netlist generation with several instantiat
              text='Generated netlists of stateless leaves (registers as cut points, hierarchy wrappers, late additions) are built in adversarial and random instantiation orders; every wire must equal the independent reference after simulator creation and after every clk, re-evaluating any leaf must change nothing, every leaf must be evaluated after its drivers, all orders must agree, cyclic variants (self-loop, 2-cycle, long cycle) must be refused and the same cycle cut by a register accepted; deep reverse-order chains stress the sorter. Exploration (sampled).',
              note='Trusted: pbt/netgen.py (IR, builder, reference evaluator). Div/Mod and Latch are not generated.',
              ref='DESIGN.md 2/C04')
+CHECKS['C05'] = dict(tech='Hypothesis register netlists and library designs with permuted sequential-leaf visiting order (metamorphic), two-phase reference evaluator, prepared-list invariant, clk(n) vs n x clk(1) equivalence',
+             text='For generated register netlists (chains, swaps, rings, feedback through logic, several clock domains) and library designs (UART loop, Reg2Axi->Axi2Reg, synchronous memory with register paths) the full state trace (all wires + leaf attributes) must be identical for the reference order, its reversal and random permutations of sim.clockDrivers[drv].clockables; netlists are also compared with an independent two-phase evaluator; Wire.prepared must be empty after every clk; clk(n) must equal n single calls including total_clks. Exploration (sampled).',
+             note='Trusted: pbt/netgen.py reference evaluator; permutation through the public clockables list of a held simulator.',
+             ref='DESIGN.md 2/C05')
 NOT_APPLICABLE = {}
 
 def main():
